@@ -18,6 +18,8 @@ theorem table_antitone : LevelAdvantage.table.Pairwise (fun a b => b ≤ a) := b
 
 theorem bias_nonneg : 0 ≤ LevelAdvantage.bias := by decide +kernel
 
+theorem table_head_eq : LevelAdvantage.table.getD 0 0 = (6 / 5 : Rat) := by decide +kernel
+
 /-! ### the lookup as a total function of the gap -/
 
 /-- value of the lookup at table index `i` (an integer, clamped on both sides the way
